@@ -12,7 +12,7 @@ class C16(vlib.Spec):
     props_vo = "theories/Props/C16.vo"
     theorems = ["C16_fifo_exactly_once", "C16_history_faithful", "C16_closure_consistent",
                 "C16_no_strand", "C16_waiting_implies_runnable",
-                "C16_no_rx_strand"]
+                "C16_no_rx_strand", "C16_holds_b_on_model", "C16_agree_implies_holds"]
     crate, group, binary = "h_chan", "dfir", "h_chan"
     imports = ("From Coq Require Import List NArith.\nImport ListNotations.\n"
                "From HV Require Import Chan.Base Chan.ModelMpsc Chan.ModelMpscChk.")
